@@ -356,9 +356,11 @@ Definition claim_snippet (fc : file_contents) (p : cppport) (m : mcfix) : result
 Definition release_snippet (fc : file_contents) (p : cppport) (m : mcfix) : result content :=
   let e := mx_release m in
   do args <- formal_args fc (zp_itf (cp_dzn p)) true e;
+  let forwarded := cp_target p ++ L ".Arbitered().in." ++ e_name e ++ L "(" ++ call_args e ++ L ")" in
+  let deselect := cp_target p ++ L ".Deselect(identifier);" in
   Ok (lambda_block (L "port.in." ++ e_name e ++ L " = [&, identifier]" ++ paren_args args ++ L " {")
-        [cp_target p ++ L ".Arbitered().in." ++ e_name e ++ L "(" ++ call_args e ++ L ");";
-         cp_target p ++ L ".Deselect(identifier);"]).
+        (if ids_eqb (e_ret e) [L "void"] then [forwarded ++ L ";"; deselect]
+         else [L "const auto r = " ++ forwarded ++ L ";"; deselect; L "return r;"])).
 
 Definition client_ref_stmt (p : cppport) (e : event) : stmt :=
   Assign (sl (Cli (cp_name p) []) DIn e) (Ref (sl (boundary p) DIn e)).
